@@ -89,7 +89,7 @@ impl Prop for C25 {
     type Scn = Scn;
     fn runs(tier: Tier) -> u64 {
         match tier {
-            Tier::Quick => 150_000,
+            Tier::Quick => 400_000,
             Tier::Thorough => 50_000_000,
         }
     }
